@@ -4,6 +4,17 @@ def extract(path):
     t = open(path).read()
     progs = [m.group(2).strip() for m in re.finditer(r'(?s)(\w+)\s*=\s*(?:r|f)?"""(.*?)"""', t) if ":-" in m.group(2) or "{" in m.group(2)]
     progs = [p for p in progs if not p.lstrip().startswith(("C1", "C0", "Demo", "demo", "m1", "m2", "m3")) and len(p) < 1500]
+    # programs given as bare triple-quoted strings inside a list / call: keep what clingo parses
+    for m in re.finditer(r'(?s)"""(.*?)"""', t):
+        cand = m.group(1).strip()
+        if cand in progs or not (":-" in cand or "{" in cand) or len(cand) >= 1500:
+            continue
+        try:
+            from clingo.ast import parse_string
+            parse_string(cand, lambda x: None, logger=lambda c, m_: None)
+        except Exception:  # noqa
+            continue
+        progs.append(cand)
     def preds(names):
         for nm in names:
             m = re.search(nm + r'\w*\s*(?::[^=]*)?=\s*(\[.*?\])\s*$', t, re.M | re.S)
